@@ -132,13 +132,16 @@ def run_kani(ctx, unit, harness=(), flags=(), rustflags=None, jobs=16, harness_t
         if len(ctx.samples) < 40:
             cf = (meta.get(hid, {}).get('contract') or {}).get('contracted_function_name')
             ctx.samples.append('kani harness %s%s: %d checks, 0 failed' % (hid, ' (contract of %s)' % cf if cf else '', len(checks)))
-    # ---- failures: get concrete values, report
-    for hid, fails in failing:
-        desc = '; '.join(sorted(set('%s [%s @ %s:%s]' % (c.get('description', ''), c.get('function', ''),
+    # ---- failures: get concrete values (for the cheapest failing harness only: Kani's concrete
+    # playback mode is slow), report every failing harness
+    durations = {r['harness_id']: (r.get('duration_ms') or 0) for r in results}
+    failing.sort(key=lambda t: durations.get(t[0], 0))
+    for idx, (hid, fails) in enumerate(failing):
+        desc = '; '.join(sorted(set('%s [%s @ %s:%s]' % (re.sub(r'\s+', ' ', c.get('description', '')), c.get('function', ''),
                                                         os.path.basename(str((c.get('location') or {}).get('file', ''))),
                                                         (c.get('location') or {}).get('line', '')) for c in fails)))[:1500]
         witness, pb = None, None
-        if playback:
+        if playback and idx < 1:
             witness, pb = concrete_playback(unit, crate, env, hid, flags, features, no_default_features)
         short = hid.split('::')[-1]
         key = '%s|%s|%s' % (key_prefix or ('kani:' + unit), short, re.sub(r'\s+', ' ', fails[0].get('description', ''))[:120])
@@ -146,7 +149,7 @@ def run_kani(ctx, unit, harness=(), flags=(), rustflags=None, jobs=16, harness_t
         if pb:
             detail += '\n---- concrete playback (Kani counterexample as a unit test over the real code) ----\n' + pb
         ctx.violation(key, 'kani %s::%s: %s' % (unit, short, desc[:300]), detail, witness=witness,
-                      replay_cmd=('%s/tools/kani_replay.sh %s %s %s' % (VERIF, unit, hid, tag)) if witness else None,
+                      replay_cmd=('%s/tools/kani_replay.sh %s %s %s' % (VERIF, unit, hid, tag)),
                       engine='kani:' + unit)
     part = dict(engine='kani', unit=unit, tag=tag, harnesses=len(results), verified=n_ok, wall_s=round(wall, 1),
                 flags=list(flags), rustflags=rustflags, per_harness=per)
@@ -166,7 +169,7 @@ def concrete_playback(unit, crate, env, hid, flags, features, no_default_feature
         cmd += ['--no-default-features']
     cmd += [f for f in flags]
     try:
-        p = subprocess.run(cmd, cwd=crate, env=env, capture_output=True, text=True, timeout=900)
+        p = subprocess.run(cmd, cwd=crate, env=env, capture_output=True, text=True, timeout=420)
     except subprocess.TimeoutExpired:
         return None, None
     out = p.stdout
